@@ -9,6 +9,7 @@ import Anko.Gen.CliFlow
 import Anko.Props.CliFlowTable
 import Anko.Props.Tie.CliFlow
 import Anko.Props.Tie.CoreFlow
+import Anko.Props.Tie.Inventory
 
 namespace Anko.C18
 open Anko
@@ -73,5 +74,16 @@ this property then searches for a failing input - so a change that breaks this p
 property is not overlooked. -/
 /-- the builtins (core/*.go) -/
 theorem source_tie_CoreFlow : Gen.CoreFlow.leaves = Tables.coreFlow := Tie.coreFlow
+
+
+/-! ### Declaration inventory
+
+Nothing was added to the packages this property is anchored in: their top-level declarations (functions, methods, variables, constants, types with
+the fields of struct types), regenerated from /repo on this run, are the audited ones (Props/Tie/Inventory). A helper, a package-level table or a
+file added there - code no flow table can pin - breaks the tie by name and makes this property's check search for a failing input. -/
+/-- the command-line tool (anko.go and any file next to it) -/
+theorem declarations_of_Root_are_the_audited_ones : Tie.ofPkg "." Gen.Inventory.decls = Tie.ofPkg "." Tables.inventory := Tie.inventoryRoot
+/-- core/ -/
+theorem declarations_of_Core_are_the_audited_ones : Tie.ofPkg "core" Gen.Inventory.decls = Tie.ofPkg "core" Tables.inventory := Tie.inventoryCore
 
 end Anko.C18
